@@ -154,6 +154,84 @@ class Namespace:
         return out
 
 
+def interpreted_index_reset(repo, cls, name):
+    """Second opinion for B4: interpret the method on a graph whose two temporal indexes are non-empty; True when both are
+    empty containers at exit, False when one still has content, None when the body leaves the interpreted fragment."""
+    from .absint import Interp, Int, Const, NONE, SelfV, DictObj, Opaque, Builtin, BoundMethod, AbstractRaise, Unsupported, run_all_choices
+    from .ordertype import OrderType
+    from .query_check import QueryWorld, SHAPES
+
+    class SuperV:
+        pass
+
+    class ClearWorld(QueryWorld):
+        def __init__(self, *a, **k):
+            super().__init__(*a, **k)
+            self.vals = {"time_to_edge": DictObj({Int("t", 1): DictObj({Const("ev"): NONE})}, persistent=True, tag="time_to_edge"),
+                         "snapshots": DictObj({Int("t", 1): Const(2)}, persistent=True, tag="snapshots")}
+            self.base_calls = []
+
+        def resolve_name(self, ip, nm, node):
+            if nm == "super":
+                return Builtin("super")
+            return super().resolve_name(ip, nm, node)
+
+        def call_builtin(self, ip, nm, args, kwargs, node):
+            if nm == "super":
+                return SuperV()
+            return super().call_builtin(ip, nm, args, kwargs, node)
+
+        def load_attr(self, ip, obj, attr, node):
+            if isinstance(obj, SelfV) and attr in self.vals:
+                return self.vals[attr]
+            if isinstance(obj, SuperV):
+                return BoundMethod(obj, attr)
+            return super().load_attr(ip, obj, attr, node)
+
+        def store_attr(self, ip, obj, attr, v, node):
+            if isinstance(obj, SelfV) and attr in self.vals:
+                self.vals[attr] = v
+                return
+            return super().store_attr(ip, obj, attr, v, node)
+
+        def call(self, ip, f, args, kwargs, node):
+            if isinstance(f, Opaque) and (f.tag.startswith("module:nx.") or f.tag.startswith("module:networkx.")) and args and isinstance(args[0], SelfV):
+                self.base_calls.append(f.tag)
+                return NONE
+            return super().call(ip, f, args, kwargs, node)
+
+        def call_method(self, ip, obj, nm, args, kwargs, node):
+            if isinstance(obj, SuperV):
+                self.base_calls.append("super." + nm)
+                return NONE
+            return super().call_method(ip, obj, nm, args, kwargs, node)
+
+    rel = CLASSES[cls]
+    methods = repo.class_methods(rel, cls)
+    fn = methods[name]
+    shape = SHAPES[cls == "DynDiGraph"][0]
+    ot = OrderType([["t"]], [], 4)
+    verdicts = []
+
+    def once(ch):
+        w = ClearWorld(cls, shape, ch, methods, {})
+        w.current_rel = rel
+        ip = Interp(w, ot, max_depth=8)
+        try:
+            ip.call_function(fn, {"self": SelfV()})
+        except AbstractRaise:
+            return None
+        return all(isinstance(v, DictObj) and not v.entries for v in w.vals.values())
+    try:
+        for ch, ok in run_all_choices(once, max_runs=8):
+            verdicts.append(ok)
+    except Unsupported:
+        return None
+    if not verdicts or any(v is None for v in verdicts):
+        return None
+    return all(verdicts)
+
+
 def direct_structure_writes(fn):
     """Write sites of fn through self that change adjacency / node *structure* (not empty row creation)."""
     out = []
@@ -327,9 +405,40 @@ def check_blocking(repo: Repo, rep: Report):
                                 if c not in seen and c in ns.defs and ns.origin.get(c) == cls:
                                     seen.add(c)
                                     bodies.append(ns.defs[c])
-                    rebinds = {t.attr for b in bodies for a in walk_no_nested(b) if isinstance(a, ast.Assign) for t in a.targets
-                               if isinstance(t, ast.Attribute) and isinstance(t.value, ast.Name) and t.value.id == "self"}
+                    # ... or by a module-level helper that receives self (a context manager around the base call, for instance)
+                    scoped = [(b, "self") for b in bodies]
+                    from .absint import FUNCTION_INDEX
+                    seen_h = set()
+                    for _ in range(3):
+                        for (b, alias) in list(scoped):
+                            for c in ast.walk(b):
+                                if isinstance(c, ast.Call) and isinstance(c.func, ast.Name) and c.func.id in FUNCTION_INDEX and c.func.id not in seen_h:
+                                    cands = [x for x in FUNCTION_INDEX[c.func.id] if x[0] == rel] or FUNCTION_INDEX[c.func.id]
+                                    hf = cands[0][1]
+                                    for i, a in enumerate(c.args):
+                                        if isinstance(a, ast.Name) and a.id == alias and i < len(hf.args.args):
+                                            seen_h.add(c.func.id)
+                                            scoped.append((hf, hf.args.args[i].arg))
+                    rebinds = set()
+                    for (b, alias) in scoped:
+                        for a in ast.walk(b):
+                            if isinstance(a, ast.Assign):
+                                for t in a.targets:
+                                    for x in (t.elts if isinstance(t, (ast.Tuple, ast.List)) else [t]):
+                                        if isinstance(x, ast.Attribute) and isinstance(x.value, ast.Name) and x.value.id == alias:
+                                            rebinds.add(x.attr)
+                            elif isinstance(a, ast.Call) and isinstance(a.func, ast.Attribute) and a.func.attr == "clear" and \
+                                    isinstance(a.func.value, ast.Attribute) and isinstance(a.func.value.value, ast.Name) and a.func.value.value.id == alias:
+                                rebinds.add(a.func.value.attr)          # self.snapshots.clear() empties the index as well
                     ok_idx = {"time_to_edge", "snapshots"} <= rebinds
+                    if not ok_idx:
+                        # the reset may be written in a way the recogniser above does not know: interpret the method
+                        second = interpreted_index_reset(repo, cls, name)
+                        if second is True:
+                            ok_idx = True
+                        elif second is None:
+                            raise AnalysisError("B4.basecall at %s: whether the temporal indexes are reset could neither be recognised "
+                                                "nor interpreted" % construct)
                     rep.ob("B4.basecall", construct, "structure emptied through the base class => both temporal indexes re-created", ok=ok_idx)
                     if not ok_idx:
                         rep.finding("B4.basecall", construct, "indexes-not-reset",
